@@ -149,4 +149,21 @@ theorem angular_opposite (n : ℕ) (a : Fin n → ℝ) (k : ℝ) (hk : 0 < k) (h
     simp [realArith]
   rw [hc, Real.arccos_neg_one, div_self Real.pi_ne_zero]
 
+
+/-- **far side of a hyperplane**: for a unit normal `n`, a query `q` and a document `v` on opposite
+    sides of the hyperplane `{x | n·x = b}` (or on it), the Euclidean distance between them is at least
+    the query's distance `|n·q - b|` to the hyperplane — the geometric fact behind pruning far-side
+    leaves (`Lsh.FarSound`) -/
+theorem euclid_far_side (d : ℕ) (n q v : Fin d → ℝ) (b : ℝ) (hn : ∑ i, n i ^ 2 = 1)
+    (hopp : (∑ i, n i * q i - b) * (∑ i, n i * v i - b) ≤ 0) :
+    |∑ i, n i * q i - b| ≤ euclid realArith (List.ofFn q) (List.ofFn v) := by
+  rw [euclid_ofFn]
+  apply Real.abs_le_sqrt
+  have hcs := Finset.sum_mul_sq_le_sq_mul_sq Finset.univ n (fun i => q i - v i)
+  rw [hn, one_mul] at hcs
+  have hdiff : ∑ i, n i * (q i - v i) = (∑ i, n i * q i - b) - (∑ i, n i * v i - b) := by
+    simp only [mul_sub, Finset.sum_sub_distrib]; ring
+  rw [hdiff] at hcs
+  nlinarith [hcs, hopp, sq_nonneg (∑ i, n i * v i - b)]
+
 end Syzgy.DistReal
